@@ -397,8 +397,19 @@ def history(draw):
         st.just({"op": "reopen"}),
         st.fixed_dictionaries({"op": st.just("side"), "kind": st.sampled_from(["source", "sink"]), "form": form,
                                "items": items, "sub": sub, "target": st.sampled_from(["file", "dir"])}),
-        st.fixed_dictionaries({"op": st.just("query"), "filters": G.filter_set(pool, 1, 3, no_ts=True)}),
+        st.fixed_dictionaries({"op": st.just("query"), "filters": G.filter_set(pool, 1, 3, no_ts="dict-kept")}),
     )
+    stamped = [o for o in pool if not G.is_dict_kept(o) and M.is_ts(o.get("modified"))]
+    if stamped:
+        # [type = T, modified|created <op> respelled value]: the type filter keeps dictionary-kept objects (open C12 finding) out of reach
+        @st.composite
+        def ts_query(d):
+            t = d(st.sampled_from(stamped))
+            path = d(st.sampled_from(["modified", "modified", "created"]))
+            # (a datetime instance as the value only where no dictionary-kept object carries the path: decided from the whole pool)
+            fl = [{"prop": "type", "op": "=", "value": t["type"]}, d(G.aimed_ts_filter(pool, path, t[path]))]
+            return {"op": "query", "filters": fl[::-1] if d(st.booleans()) else fl}
+        ops = st.one_of(ops, ops, ops, ops, ops, ops, ts_query())
     init = draw(st.one_of(st.none(), st.none(), st.fixed_dictionaries({"form": form, "items": items, "sub": sub})))
     return {"bundlify": draw(st.sampled_from([False, False, True])), "pool": pool, "init": init,
             "ops": draw(st.lists(ops, min_size=2, max_size=14))}
